@@ -548,3 +548,103 @@ def _rsl_build(d):
 
 
 CONTRACTS["ufo2ft.instantiator:Instantiator.replace_source_layers"].runtime = Runtime(_rsl_cases, _rsl_build)
+
+
+# =====================================================================================================
+# 4. Instantiator.__post_init__: which source layer is the default one
+# =====================================================================================================
+# (here the locations are plain dict VALUES: the method compares `location.items() <= default_location.items()`, a dict-view operation)
+LOCDICT = Dict(STR, REAL)
+cls(
+    "InstantiatorPI",
+    fields={"axis_bounds": BOUNDS, "source_layers": List(Tuple(LOCDICT, Ref("Layer"))), "default_source_idx": INT, "default_design_location": LOCDICT},
+    repo="ufo2ft.instantiator:Instantiator",
+    notes="Instantiator as __post_init__ sees it: axis bounds, (location dict, layer) pairs, and the two computed attributes it assigns",
+)
+
+
+class _ObjNS:
+    """stand-in for the builtin `object` in __post_init__ (object.__setattr__ is a slot wrapper, which the engine cannot resolve by name)"""
+
+    @staticmethod
+    def __setattr__(o, n, v):
+        object.__setattr__(o, n, v)
+
+
+_ObjNS.__setattr__.__module__ = "c19"
+_ObjNS.__setattr__.__qualname__ = "object_setattr"
+
+
+@trusted("c19.object_setattr", "object.__setattr__(o, '<name>', v) is the assignment o.<name> = v (bypassing the frozen dataclass guard)")
+def _object_setattr(ex, st, args, kwargs, node):
+    o, n, v = args
+    if not (n.is_py and isinstance(n.py, str)):
+        raise Unsupported("object.__setattr__ with a symbolic attribute name", node)
+    ex.write_field(st, o, n.py, v, node)
+    return Val.const(None)
+
+
+@specfn(BOOL, loc=LOCDICT, bounds=BOUNDS)
+def at_default(loc, bounds):
+    """every axis the location mentions is an axis of the designspace and sits at its default value (axes left out count as default)"""
+    return all(k in bounds and bounds[k][1] == loc[k] for k in loc)
+
+
+_PL = "self.source_layers"
+_PIDX = "self.default_source_idx"
+contract(
+    "ufo2ft.instantiator:Instantiator.__post_init__",
+    props=["C19"],
+    params={"self": Ref("InstantiatorPI")},
+    globals={"object": __import__("pyvc.symex").symex.FuncRef(_ObjNS, "c19.objectNS")},
+    raises={"InstantiatorError": f"not any(at_default({_PL}[a][0], self.axis_bounds) for a in range(len({_PL})))"},
+    ensures={
+        # the default source is the FIRST layer at the default location
+        "first-layer-at-default": f"0 <= {_PIDX} and {_PIDX} < len({_PL}) and at_default({_PL}[{_PIDX}][0], self.axis_bounds)"
+        f" and all(not at_default({_PL}[a][0], self.axis_bounds) for a in range({_PIDX}))",
+        # the default design location: every axis at its default value, nothing else
+        "default-design-location": "all(k in self.default_design_location and self.default_design_location[k] == self.axis_bounds[k][1] for k in self.axis_bounds)"
+        " and all(k in self.axis_bounds for k in self.default_design_location)",
+        "rest-unchanged": f"{_PL} == old({_PL}) and self.axis_bounds == old(self.axis_bounds)",
+    },
+    canaries={"first-layer": f"{_PIDX} == 0", "last-layer": f"{_PIDX} == len({_PL}) - 1"},
+    modifies=["self.default_source_idx", "self.default_design_location"],
+    loops={
+        "for (i, (location, _)) in enumerate(self.source_layers)": Loop(
+            index="j",
+            invariants={"none-so-far": f"all(not at_default({_PL}[a][0], self.axis_bounds) for a in range(j))"},
+        )
+    },
+)
+
+
+def _pi_cases(rng, n):
+    out = []
+    for _ in range(n):
+        axes = rng.sample(["wght", "wdth", "slnt"], rng.randint(1, 3))
+        bounds = {a: [rng.choice([0, 100]), rng.choice([100, 400]), rng.choice([900, 1000])] for a in axes}
+        layers = []
+        for _k in range(rng.randint(0, 4)):
+            loc = {}
+            for a in axes + ["stray"]:
+                r = rng.random()
+                if a == "stray" and r < 0.9:
+                    continue
+                if r < 0.35:
+                    continue  # axis left out: counts as default
+                loc[a] = bounds[a][1] if a in bounds and r < 0.75 else rng.choice([0, 250, 900])
+            layers.append(loc)
+        out.append({"bounds": bounds, "layers": layers})
+    return out
+
+
+def _pi_build(d):
+    from ufo2ft.instantiator import Instantiator
+
+    inst = object.__new__(Instantiator)
+    object.__setattr__(inst, "axis_bounds", {a: tuple(b) for a, b in d["bounds"].items()})
+    object.__setattr__(inst, "source_layers", [(dict(loc), {}) for loc in d["layers"]])
+    return {"self": inst}
+
+
+CONTRACTS["ufo2ft.instantiator:Instantiator.__post_init__"].runtime = Runtime(_pi_cases, _pi_build)
